@@ -236,12 +236,21 @@ def evaluate(driver, lines, timeout=3600):
     return res
 
 
+def scratch_cwd(harness):
+    """The harness runs in a scratch directory next to its binary (inside the per-run temp dir):
+    option parsing may create files named by option values (--history FILE)."""
+    d = os.path.join(os.path.dirname(harness), 'cwd')
+    os.makedirs(d, exist_ok=True)
+    return d
+
+
 def impl_eval(harness, case_lines, timeout=3600):
     """Run the implementation on case lines (answers stripped). A crash of the harness process
     itself is isolated by re-running the remaining cases one by one."""
     stripped = [l.split(' => ')[0] for l in case_lines]
     p = subprocess.run([harness, 'eval'], input=('\n'.join(stripped) + '\n').encode(), stdout=subprocess.PIPE,
-                       stderr=subprocess.PIPE, timeout=timeout, env=dict(os.environ, GOMEMLIMIT='4GiB'))
+                       stderr=subprocess.PIPE, timeout=timeout, env=dict(os.environ, GOMEMLIMIT='4GiB'),
+                       cwd=scratch_cwd(harness))
     outs = [l for l in p.stdout.decode('utf-8', 'replace').split('\n') if l]
     if len(outs) == len(stripped):
         return outs
@@ -257,7 +266,7 @@ def impl_eval(harness, case_lines, timeout=3600):
 
 def gen_cases(harness, area, seed, count, timeout=7200):
     p = subprocess.run([harness, 'gen', area, str(seed), str(count)], stdout=subprocess.PIPE, stderr=subprocess.PIPE,
-                       timeout=timeout, env=dict(os.environ, GOMEMLIMIT='4GiB'))
+                       timeout=timeout, env=dict(os.environ, GOMEMLIMIT='4GiB'), cwd=scratch_cwd(harness))
     lines = [l for l in p.stdout.decode('utf-8', 'replace').split('\n') if l]
     err = p.stderr.decode('utf-8', 'replace')
     return lines, (p.returncode, err[-2000:])
